@@ -34,6 +34,7 @@ def run(ctx: Ctx):
     valid_index_selection(ctx)
     valid_elements_chain(ctx)
     nan_mapping(ctx)
+    measure_presence(ctx)
     reshape(ctx)
     axis_order(ctx)
     extraction(ctx)
@@ -295,6 +296,30 @@ def nan_mapping(ctx: Ctx):
         )
         ctx.count("numeric-measure _flat_values with dict->NaN")
     ctx.require_min("numeric-measure _flat_values with dict->NaN", 7)
+
+
+def measure_presence(ctx: Ctx):
+    """Whether a measure is PRESENT is a fact about the response structure (key / list there or not).  A presence test on
+    the CONTENT of the values (`values.any()`, `np.sum(values)`, `max(...)`) makes a measure whose values are all 0
+    vanish: zeros the response carries would be replaced by a fallback measure."""
+    from ..stmts import reachable_functions
+
+    CONTENT = {"any", "all", "sum", "nansum", "max", "min", "count_nonzero", "nonzero", "prod", "mean"}
+    base = ctx.repo.cls("cube.py", "_BaseMeasure")
+    n = 0
+    for ci in [base] + base.all_subclasses():
+        for fn in reachable_functions(ctx.repo, ci, "_flat_values"):
+            tests = [t.test for t in ast.walk(fn) if isinstance(t, (ast.If, ast.IfExp))]
+            n += 1
+            for t in tests:
+                hits = [u(c)[:60] for c in ast.walk(t) if isinstance(c, ast.Call) and ((isinstance(c.func, ast.Attribute) and c.func.attr in CONTENT) or (isinstance(c.func, ast.Name) and c.func.id in CONTENT))]
+                if hits:
+                    ctx.violated("measure-presence", f"cube.py::{ci.name}.{fn.name}", hits, "presence decided from the response structure (the data list is there / non-empty)",
+                                 "a measure that is present with all-zero values is treated as absent")
+    ctx.count("measure value extractors scanned", n)
+    ctx.require_min("measure value extractors scanned", 10)
+    if not any(o.rule.endswith("measure-presence") and o.status == "violated" for o in ctx.obligations):
+        ctx.held("measure-presence", "cube.py: every _flat_values (and helpers)", f"{n} extractors: no presence test on the content of the values", "")
 
 
 # --------------------------------------------------------------------------- 3
